@@ -1,16 +1,77 @@
-"""Real members of the shipped classes, sampled through the REAL PEPit API (failing-input search of C03 / C04).
+"""Real members of the shipped classes, sampled through the REAL PEPit API (stream "genuine-members" and failing-
+input search of C03).
 
-For a class and parameters: draw a numerical member (harness/concrete.py), evaluate it at random points,
-record the genuine triples on a real PEPit function object with fresh leaf Points / Expressions, call the
-real `set_class_constraints()` and evaluate every generated scalar constraint and LMI at the recorded
-numbers.  A constraint that a genuine member violates is a violation of C03 (the check is numerical, with a
-tolerance far below any coefficient change; it supports the proofs, it does not replace them)."""
+For a class and parameters: draw a numerical member (harness/concrete.py, plus the members defined here), evaluate
+it at random points, record the genuine triples on a real PEPit function object with fresh leaf Points /
+Expressions (`add_point`; stationary samples; repeated evaluations at one point; samples of the transpose for
+LinearOperator; the infimal displacement vector for NonexpansiveOperator; the blocks of every gradient for
+BlockSmoothConvexFunction), call the real `set_class_constraints()` and evaluate every generated scalar
+constraint and LMI at the recorded numbers.  A constraint that a genuine member violates is a violation of C03
+(the check is numerical, with a tolerance far below any coefficient change; it supports the proofs and finds
+failing inputs, it does not replace them).
+
+Every case is a function of (class, case_seed) alone: `check_case(name, case_seed)`."""
 import math
+import random
 
 import numpy as np
 
 from . import classes as CL
 from . import concrete as CW
+
+
+# ------------------------------------------------------------------ members not in harness/concrete.py
+class AffMap(CW.Member):
+    """T x = A x + b with A symmetric, 0 <= A <= I: nonexpansive; the eigenspace U of eigenvalue 1 is ker(I - A),
+    range(I - T) = -b + U^perp, whose minimal-norm element is the infimal displacement vector v = -P_U b
+    (non-zero: T has no fixed point)"""
+    def __init__(self, world, d):
+        rng = world.rng
+        self.world = world
+        Q = world.orthogonal(d)
+        k = int(rng.randint(1, d + 1))                    # dim U >= 1
+        s = np.concatenate([np.ones(k), rng.uniform(0, 0.9, size=d - k)])
+        self.A = Q @ np.diag(s) @ Q.T
+        self.A = (self.A + self.A.T) / 2
+        self.b = rng.normal(size=d) * float(rng.choice([0.5, 1.0, 3.0]))
+        PU = Q[:, :k] @ Q[:, :k].T
+        self.v = -PU @ self.b
+
+    def f(self, x): return 0.0
+    def oracle(self, x): return CW.CP(self.A @ x.v + self.b), CW.CE(0.0)
+
+
+class BlockQuadratic(CW.Member):
+    """1/2 (x-c)^T A (x-c) + b on R^n, A positive semidefinite, with a partition of the n coordinates into
+    contiguous blocks; smooth along block k with constant lambda_max(A_kk) (the k-th DIAGONAL block: moving
+    inside block k changes the function by 1/2 d^T A_kk d) -- whatever the off-diagonal coupling."""
+    def __init__(self, world, sizes, Ls):
+        rng = world.rng
+        n = sum(sizes)
+        self.world, self.sizes = world, sizes
+        self.offsets = np.concatenate([[0], np.cumsum(sizes)])
+        r = int(rng.randint(1, n + 1))
+        B = rng.normal(size=(n, r))
+        A = B @ B.T                                          # PSD, possibly singular, blocks coupled
+        D = np.zeros(n)
+        for k, (lo, hi) in enumerate(zip(self.offsets[:-1], self.offsets[1:])):
+            top = float(np.linalg.eigvalsh(A[lo:hi, lo:hi])[-1])
+            slack = float(rng.choice([1.0, 1.0, 0.5]))       # tight (lambda_max(A_kk) = L_k) two times out of three
+            D[lo:hi] = math.sqrt(slack * Ls[k] / top) if top > 1e-12 else 1.0
+        self.A = (D[:, None] * A) * D[None, :]               # congruence by a block-scalar diagonal: still PSD
+        self.A = (self.A + self.A.T) / 2
+        self.c = world.center()
+        self.b = float(rng.normal())
+
+    def f(self, x): return 0.5 * float((x - self.c) @ self.A @ (x - self.c)) + self.b
+    def oracle(self, x): return CW.CP(self.A @ (x.v - self.c)), CW.CE(self.f(x.v))
+    def argmin(self): return self.c.copy()
+
+    def block(self, vec, k):
+        out = np.zeros_like(vec)
+        lo, hi = self.offsets[k], self.offsets[k + 1]
+        out[lo:hi] = vec[lo:hi]
+        return out
 
 
 def draw_member(world, name, params):
@@ -36,6 +97,10 @@ def draw_member(world, name, params):
         A[k:, k:] = -(1.0 / rho) * float(rng.choice([1.0, 2.0])) * np.eye(d - k)
         Q = world.orthogonal(d)
         return CW.LinOp(world, Q @ A @ Q.T, world.center())
+    if name == "NonexpansiveOperator" and rng.rand() < 0.4:
+        return AffMap(world, d)
+    if name == "BlockSmoothConvexFunction":
+        return BlockQuadratic(world, params["_sizes"], params["L"])
     return world.member(name, params)
 
 
@@ -58,19 +123,30 @@ def point_value(pt, P):
     return v
 
 
-def check_class(name, rng, seed, n_samples=None):
-    """returns None if every generated constraint holds on genuine samples, else a replayable dict"""
+NO_STATIONARY = ("SmoothStronglyConvexQuadraticFunction", "LinearOperator", "SymmetricLinearOperator",
+                 "SkewSymmetricLinearOperator", "ConvexSupportFunction", "NegativelyComonotoneOperator")
+
+
+def check_class(name, rng, seed, n_samples=None, stats=None):
+    """returns None if every generated constraint holds on genuine samples, dict(skipped=...) when no member could
+    be drawn, else a replayable violation dict.  `stats` (a dict) accumulates what was evaluated."""
     from PEPit import PEP, Point, Expression
     params = CL.draw_params(rng, name)
     dim = rng.choice([1, 2, 3, 4]) if name not in ("LipschitzStronglyMonotoneOperator",) else rng.choice([2, 4])
+    mparams = dict(params)
+    if name == "BlockSmoothConvexFunction":
+        nb = params["d"]
+        sizes = [rng.choice([1, 1, 2]) for _ in range(nb)]
+        dim = sum(sizes)
+        mparams["_sizes"] = sizes
     world = CW.World(seed, dim, 1.0)
     world.shared_anchor = True
     try:
-        member = draw_member(world, name, params)
+        member = draw_member(world, name, mparams)
     except CW.Unsupported as e:
         return dict(skipped=str(e))
     pep = PEP()
-    func = pep.declare_function(CL.get_class(name), **params)
+    func = CL.declare(pep, rng, name, dict(params), False)
     P, F = {}, {}
     n = n_samples if n_samples is not None else rng.choice([1, 2, 3, 4, 5])
     order = []
@@ -94,10 +170,7 @@ def check_class(name, rng, seed, n_samples=None):
     pts = []
     for k in range(n):
         r = rng.random()
-        if r < 0.2 and name not in ("SmoothStronglyConvexQuadraticFunction", "LinearOperator",
-                                    "SymmetricLinearOperator", "SkewSymmetricLinearOperator",
-                                    "ConvexSupportFunction", "NegativelyComonotoneOperator") \
-                and hasattr(member, "argmin"):
+        if r < 0.2 and name not in NO_STATIONARY and hasattr(member, "argmin"):
             try:
                 xs = member.argmin()
             except CW.Unsupported:
@@ -133,11 +206,19 @@ def check_class(name, rng, seed, n_samples=None):
             P[id(pv)] = member.T.oracle(CW.CP(u))[0].v
             func.T.add_point((pu, pv, Expression()))
             order.append("T-sample")
-    if name == "NonexpansiveOperator" and rng.random() < 0.6:
-        # infimal displacement vector of the affine map x -> c + A(x - c) with a fixed point: v = 0
-        v = Point()
-        P[id(v)] = np.zeros(dim)
-        func.v = v
+    if name == "NonexpansiveOperator":
+        if isinstance(member, AffMap):
+            # a nonexpansive map without fixed point: its true (non-zero) infimal displacement vector
+            v = Point()
+            P[id(v)] = member.v
+            func.v = v
+            order.append("v")
+        elif rng.random() < 0.6:
+            # infimal displacement vector of the affine map x -> c + A(x - c) with a fixed point: v = 0
+            v = Point()
+            P[id(v)] = np.zeros(dim)
+            func.v = v
+            order.append("v=0")
     func.set_class_constraints()
     # ConvexQGFunction / RsiEbFunction declare a stationary point themselves when none was recorded
     for xs, gs, fs in func.list_of_stationary_points:
@@ -145,17 +226,45 @@ def check_class(name, rng, seed, n_samples=None):
             P[id(xs)] = member.argmin()
             F[id(fs)] = member.f(member.argmin())
             order.append("auto-stationary")
+    if name == "BlockSmoothConvexFunction":
+        # partition.get_block(g, k) created fresh leaf points for the blocks 0..d-2 of every recorded gradient (the
+        # last block is g minus their sum): value them by the true coordinate-block projections
+        for pt, blocks in func.partition.blocks_dict.items():
+            gv = point_value(pt, P)
+            if gv is None:
+                gv = np.zeros(dim)
+            for k, b in enumerate(blocks[:-1]):
+                P[id(b)] = member.block(gv, k)
     scale = 1.0 + max([np.linalg.norm(v) for v in P.values()] + [abs(v) for v in F.values()]) ** 2
     tol = 1e-8 * scale
+    if stats is not None:
+        stats["constraints"] = stats.get("constraints", 0) + len(func.list_of_class_constraints)
+        stats["lmis"] = stats.get("lmis", 0) + len(func.list_of_class_psd)
+        stats["last"] = dict(params=params, dim=dim, samples=order, member=type(member).__name__,
+                             n_constraints=len(func.list_of_class_constraints), n_lmis=len(func.list_of_class_psd))
+        for o in order:
+            stats.setdefault("kinds", {})
+            stats["kinds"][o] = stats["kinds"].get(o, 0) + 1
     for c in func.list_of_class_constraints:
         val = value_of(c.expression, P, F)
         bad = abs(val) > tol if c.equality_or_inequality == "equality" else val > tol
         if bad:
             return dict(kind="member-violates-class-constraint", cls=name, params=params, world_seed=seed, dim=dim,
-                        constraint=c.get_name(), value=val, sense=c.equality_or_inequality, samples=order)
+                        member=type(member).__name__, constraint=c.get_name(), value=val, tolerance=tol,
+                        sense=c.equality_or_inequality, samples=order)
     for m in func.list_of_class_psd:
         M = np.array([[value_of(e, P, F) for e in row] for row in m.matrix_of_expressions], float)
         if M.size and (np.max(np.abs(M - M.T)) > tol or np.min(np.linalg.eigvalsh((M + M.T) / 2)) < -tol):
             return dict(kind="member-violates-class-lmi", cls=name, params=params, world_seed=seed, dim=dim,
-                        min_eig=float(np.min(np.linalg.eigvalsh((M + M.T) / 2))), samples=order)
+                        member=type(member).__name__, asymmetry=float(np.max(np.abs(M - M.T))),
+                        min_eig=float(np.min(np.linalg.eigvalsh((M + M.T) / 2))), tolerance=tol, samples=order)
     return None
+
+
+def check_case(name, case_seed, stats=None):
+    """one replayable case: everything (parameters, member, points, order) is drawn from case_seed"""
+    rng = random.Random(case_seed)
+    res = check_class(name, rng, case_seed % (2 ** 31), stats=stats)
+    if res is not None and "kind" in res:
+        res["case_seed"] = case_seed
+    return res
